@@ -26,8 +26,8 @@ use crate::{
     Error, UtpSocket,
     congestion::CongestionController,
     constants::{
-        ACK_DELAY, IMMEDIATE_ACK_EVERY_RMSS, RECOVERY_TRACING_LOG_LEVEL, RTTE_TRACING_LOG_LEVEL,
-        SYNACK_RESEND_INTERNAL, UTP_HEADER, calc_pipe_expiry,
+        ACK_DELAY, IMMEDIATE_ACK_EVERY_RMSS, MAX_TX_SEGMENTS, RECOVERY_TRACING_LOG_LEVEL,
+        RTTE_TRACING_LOG_LEVEL, SYNACK_RESEND_INTERNAL, UTP_HEADER, calc_pipe_expiry,
     },
     message::UtpMessage,
     metrics::METRICS,
@@ -887,7 +887,10 @@ impl<T: Transport, Env: UtpEnvironment> VirtualSocket<T, Env> {
             self.last_remote_window
         );
 
-        while remaining > 0 && remote_window_remaining > 0 {
+        while remaining > 0
+            && remote_window_remaining > 0
+            && self.user_tx_segments.total_len_packets() < MAX_TX_SEGMENTS
+        {
             let ss = self.segment_sizes.next_segment_size();
             let min_ss = self.segment_sizes.mss();
             let max_payload_size = (ss as usize).min(remote_window_remaining);
